@@ -267,6 +267,12 @@ class CurveFamily:
                     for P, Q in pairs:
                         for _ in range(2):
                             yield dict(group=g, args=[enc_pt(cm.to_rep(g, P, rng)), enc_pt(cm.to_rep(g, Q, rng))])
+                    if cm.optimized:
+                        # representatives sharing the same z != 1, and unscaled (z = 1) ones
+                        lam = cm.rand_f(g, rng)
+                        yield dict(group=g, args=[enc_pt((A[0] * lam, A[1] * lam, lam)), enc_pt((B[0] * lam, B[1] * lam, lam))])
+                        yield dict(group=g, args=[enc_pt(cm.to_rep(g, A, rng, scale=False)), enc_pt(cm.to_rep(g, B, rng, scale=False))])
+                        yield dict(group=g, args=[enc_pt(cm.to_rep(g, A, rng, scale=False)), enc_pt(cm.to_rep(g, A, rng))])
                     if cm.optimized and name == "eq":
                         zero = cm.zero(g)
                         yield dict(group=g, args=[enc_pt((zero, zero, zero)), enc_pt(cm.to_rep(g, A, rng))])
@@ -397,3 +403,293 @@ def check_twist(cm, pt):
 
 
 import closed  # noqa: E402,F401  (registers the closed-term facts)
+import fieldmon  # noqa: E402,F401
+
+
+# ------------------------------------------------------------------------------------------
+# line functions
+# ------------------------------------------------------------------------------------------
+def aff_line(P1, P2, T):
+    (x1, y1), (x2, y2), (xt, yt) = P1, P2, T
+    if not x1 == x2:
+        m = (y2 - y1) / (x2 - x1)
+        return m * (xt - x1) - (yt - y1)
+    if y1 == y2:
+        m = (3 * x1 * x1) / (2 * y1)
+        return m * (xt - x1) - (yt - y1)
+    return xt - x1
+
+
+@family("py_ecc.optimized_bls12_381.optimized_pairing.linefunc", "py_ecc.optimized_bn128.optimized_pairing.linefunc",
+        "py_ecc.bls12_381.bls12_381_pairing.linefunc", "py_ecc.bn128.bn128_pairing.linefunc")
+class LineFamily:
+    def _cm(self, fn):
+        pm = fn.rsplit(".", 1)[0]
+        return curve_mod(pm.replace("_pairing", "_curve")), importlib.import_module(pm)
+
+    def gen(self, fn, rng, hint):
+        cm, pm = self._cm(fn)
+        for rnd in range(8):
+            for g in ("G1", "G2"):
+                A, B, T = cm.gen_affine(g, rng), cm.gen_affine(g, rng), cm.gen_affine(g, rng)
+                for P1, P2 in ((A, B), (A, A), (A, aff_neg(A))):
+                    yield dict(group=g, args=[enc_pt(cm.to_rep(g, P1, rng)), enc_pt(cm.to_rep(g, P2, rng)),
+                                              enc_pt(cm.to_rep(g, T, rng))])
+
+    def check(self, fn, inp):
+        cm, pm = self._cm(fn)
+        args = [cm.dec_pt(a) for a in inp["args"]]
+
+        def A(rep):
+            if not cm.optimized:
+                return rep
+            x, y, z = rep
+            return (x / z, y / z)
+        try:
+            res = pm.linefunc(*args)
+        except Exception as e:
+            return dict(why="raised", observed=f"{type(e).__name__}: {e}", expected="a value")
+        want = aff_line(A(args[0]), A(args[1]), A(args[2]))
+        if cm.optimized:
+            num, den = res
+            if den == den.__class__.zero():
+                return dict(why="denominator is zero", observed=enc_f(den), expected="non-zero")
+            got = num / den
+        else:
+            got = res
+        if not got == want:
+            return dict(why="line function value differs from the affine line function", observed=enc_f(got), expected=enc_f(want))
+        return None
+
+
+# ------------------------------------------------------------------------------------------
+# secp256k1
+# ------------------------------------------------------------------------------------------
+def _secp():
+    return importlib.import_module("py_ecc.secp256k1.secp256k1")
+
+
+def zp_add(P, Q, p):
+    from closed import _zp_add
+    return _zp_add(P, Q, p)
+
+
+@family("py_ecc.secp256k1.secp256k1.jacobian_", "py_ecc.secp256k1.secp256k1.add", "py_ecc.secp256k1.secp256k1.multiply",
+        "py_ecc.secp256k1.secp256k1.privtopub", "py_ecc.secp256k1.secp256k1.to_jacobian",
+        "py_ecc.secp256k1.secp256k1.from_jacobian", "py_ecc.secp256k1.secp256k1.inv")
+class SecpFamily:
+    P = 2 ** 256 - 2 ** 32 - 977
+    N = 0xFFFFFFFFFFFFFFFFFFFFFFFFFFFFFFFEBAAEDCE6AF48A03BBFD25E8CD0364141
+    G = (0x79BE667EF9DCBBAC55A06295CE870B07029BFCDB2DCE28D959F2815B16F81798,
+         0x483ADA7726A3C4655DA4FBFC0E1108A8FD17B448A68554199C47D08FFB10D4B8)
+
+    def pt(self, rng):
+        from closed import zp_mul
+        k = rng.choice([1, 2, 3, rng.randrange(1, 2 ** 32), rng.randrange(1, self.N)])
+        return zp_mul(self.G, k, self.P)
+
+    def jac(self, A, rng):
+        if A is None:
+            return rng.choice([[0, 0, 1], [0, 0, 0]])
+        z = rng.randrange(1, self.P)
+        return [A[0] * z * z % self.P, A[1] * z * z * z % self.P, z]
+
+    def aff(self, A):
+        return [0, 0] if A is None else list(A)
+
+    def scalars(self, rng, hint):
+        N = self.N
+        out = [0, 1, 2, 3, N - 1, N, N + 1, 2 * N + 5, -1, -2, -7, -N, -N - 1, rng.randrange(2 ** 512), -rng.randrange(2 ** 300),
+               rng.randrange(N)]
+        # a cube root of unity scalar (lambda) and neighbours: distinct points sharing a y coordinate
+        lam = 0x5363ad4cc05c30e0a5261c028812645a122e22ea20816678df02967c1b23bd72
+        out += [lam, lam + 1, lam * lam % N + 1]
+        w = ((hint or {}).get("witness") or {}).get("z3_model") or {}
+        for k, v in w.items():
+            try:
+                out.append(int(v))
+            except Exception:
+                pass
+        return out
+
+    def gen(self, fn, rng, hint):
+        name = fn.rsplit(".", 1)[1]
+        P = self.P
+        beta = pow(2, (P - 1) // 3, P)
+        for rnd in range(5):
+            A, B = self.pt(rng), self.pt(rng)
+            nA = (A[0], (-A[1]) % P)
+            A_beta = (A[0] * beta % P, A[1])             # another curve point with the same y
+            pairs = [(A, B), (A, A), (A, nA), (None, A), (A, None), (None, None), (A, A_beta)]
+            if name == "jacobian_add":
+                for X, Y in pairs:
+                    for _ in range(2):
+                        yield dict(args=[self.jac(X, rng), self.jac(Y, rng)])
+            elif name == "jacobian_double" or name == "from_jacobian":
+                for X in (A, B, None):
+                    yield dict(args=[self.jac(X, rng)])
+            elif name == "to_jacobian":
+                for X in (A, None):
+                    yield dict(args=[self.aff(X)])
+            elif name == "add":
+                for X, Y in pairs:
+                    yield dict(args=[self.aff(X), self.aff(Y)])
+            elif name in ("multiply", "jacobian_multiply"):
+                for n in self.scalars(rng, hint):
+                    for X in (A, None):
+                        yield dict(args=[self.aff(X) if name == "multiply" else self.jac(X, rng), n])
+            elif name == "privtopub":
+                for n in [1, 2, self.N - 1, self.N, self.N + 1, rng.randrange(2 ** 256), 0]:
+                    yield dict(args=[n % 2 ** 256])
+            elif name == "inv":
+                for a in [0, 1, 2, P - 1, rng.randrange(P), rng.randrange(P)]:
+                    yield dict(args=[a, P])
+                for a in [0, 1, self.N - 1, rng.randrange(self.N)]:
+                    yield dict(args=[a, self.N])
+
+    def check(self, fn, inp):
+        from closed import zp_mul
+        m = _secp()
+        name = fn.rsplit(".", 1)[1]
+        P, N = self.P, self.N
+        f = getattr(m, name)
+        a = inp["args"]
+
+        def absj(j):
+            x, y, z = j
+            if y % P == 0:
+                return None
+            zi = pow(z, -1, P)
+            return (x * zi * zi % P, y * zi * zi * zi % P)
+
+        def absa(t):
+            return None if (t[0], t[1]) == (0, 0) else (t[0], t[1])
+
+        def on(A):
+            return A is None or (A[1] ** 2 - A[0] ** 3 - 7) % P == 0
+        try:
+            if name == "jacobian_add":
+                got, want = absj(f(tuple(a[0]), tuple(a[1]))), zp_add(absj(a[0]), absj(a[1]), P)
+            elif name == "jacobian_double":
+                got, want = absj(f(tuple(a[0]))), zp_add(absj(a[0]), absj(a[0]), P)
+            elif name == "from_jacobian":
+                r = f(tuple(a[0]))
+                got, want = absa(r), absj(a[0])
+                if not all(0 <= c < P for c in r):
+                    return dict(why="coordinates not reduced", observed=list(r))
+            elif name == "to_jacobian":
+                got, want = absj(f(tuple(a[0]))), absa(a[0])
+            elif name == "add":
+                got, want = absa(f(tuple(a[0]), tuple(a[1]))), zp_add(absa(a[0]), absa(a[1]), P)
+            elif name == "multiply":
+                got, want = absa(f(tuple(a[0]), a[1])), (zp_mul(absa(a[0]), a[1] % N, P) if absa(a[0]) else None)
+            elif name == "jacobian_multiply":
+                got, want = absj(f(tuple(a[0]), a[1])), (zp_mul(absj(a[0]), a[1] % N, P) if absj(a[0]) else None)
+            elif name == "privtopub":
+                d = a[0]
+                got, want = absa(f(d.to_bytes(32, "big"))), zp_mul(self.G, d % N, P)
+            elif name == "inv":
+                r = f(a[0], a[1])
+                ok = 0 <= r < a[1] and ((a[0] % a[1] == 0 and r == 0) or (r * a[0]) % a[1] == 1)
+                return None if ok else dict(why="inv(a, n) is not the inverse / inv0", observed=r)
+            else:
+                return None
+        except Exception as e:
+            return dict(why="raised", observed=f"{type(e).__name__}: {e}", expected="a point")
+        if got != want:
+            return dict(why=f"{name} differs from the affine group law", observed=got, expected=want)
+        if not on(got):
+            return dict(why="result not on curve", observed=got)
+        return None
+
+
+# ------------------------------------------------------------------------------------------
+# subgroup_check / cofactor clearing (C17): verdicts on sequences of representatives
+# ------------------------------------------------------------------------------------------
+R_BLS = 52435875175126190479447740508185965837690552500527637822603658699938581184513
+
+
+def _twist_point(cm, rng):
+    """a random point of E'(F_p2) (almost surely outside the subgroup)"""
+    from py_ecc.bls.point_compression import modular_squareroot_in_FQ2
+    m = cm.m
+    for _ in range(50):
+        x = cm.rand_f("G2", rng)
+        y = modular_squareroot_in_FQ2(x ** 3 + m.b2)
+        if y is not None and y * y == x ** 3 + m.b2:
+            return (x, y)
+    return None
+
+
+@family("py_ecc.bls.g2_primitives.subgroup_check", "py_ecc.optimized_bls12_381.optimized_clear_cofactor.")
+class SubgroupFamily:
+    def gen(self, fn, rng, hint):
+        cm = curve_mod("py_ecc.optimized_bls12_381.optimized_curve")
+        for rnd in range(4):
+            for g in ("G1", "G2"):
+                A = cm.gen_affine(g, rng)
+                outs = [p for p in (special_points(cm, g, rng) if g == "G1" else [_twist_point(cm, rng)]) if p is not None]
+                h1 = (0xd201000000010000 + 1) ** 2 // 3
+                seqs = [[cm.to_rep(g, A, rng)], [cm.to_rep(g, None, rng)], [cm.to_rep(g, A, rng), cm.to_rep(g, A, rng)]]
+                for T in outs:
+                    seqs.append([cm.to_rep(g, T, rng)])
+                    seqs.append([cm.to_rep(g, aff_add(A, T), rng)])
+                    one, zero = cm.one(g), cm.zero(g)
+                    # the identity written with the coordinates of T, after / before T itself
+                    seqs.append([(T[0], T[1], one), (T[0], T[1], zero)])
+                    seqs.append([(T[0], T[1], zero), (T[0], T[1], one)])
+                    if g == "G1":
+                        # cofactor-torsion component: r.T has order dividing h
+                        seqs.append([cm.to_rep(g, aff_mul(T, R_BLS), rng)])
+                for s in seqs:
+                    yield dict(group=g, seq=[enc_pt(r) for r in s])
+
+    def check(self, fn, inp):
+        cm = curve_mod("py_ecc.optimized_bls12_381.optimized_curve")
+        g = inp["group"]
+        reps = [cm.dec_pt(r) for r in inp["seq"]]
+        name = fn.rsplit(".", 1)[1]
+
+        def A(rep):
+            x, y, z = rep
+            return None if z == z.__class__.zero() else (x / z, y / z)
+        if name == "subgroup_check":
+            from py_ecc.bls.g2_primitives import subgroup_check
+            for i, rep in enumerate(reps):
+                try:
+                    got = subgroup_check(rep)
+                except Exception as e:
+                    return dict(why="raised", observed=f"{type(e).__name__}: {e}")
+                want = aff_mul(A(rep), R_BLS) is None
+                if bool(got) != want:
+                    return dict(why=f"subgroup_check verdict wrong at position {i} of the sequence", observed=bool(got), expected=want)
+            return None
+        import py_ecc.optimized_bls12_381.optimized_clear_cofactor as cc
+        X = 0xd201000000010000
+        h = {"multiply_clear_cofactor_G1": 1 + X, "multiply_clear_cofactor_G2": None}.get(name)
+        if name == "multiply_clear_cofactor_G2":
+            from closed import H2_BLS
+            h = H2_BLS * (3 * X * X - 3)
+            if g != "G2":
+                return None
+        elif g != "G1":
+            return None
+        f = getattr(cc, name)
+        for rep in reps:
+            try:
+                res = f(rep)
+            except Exception as e:
+                return dict(why="raised", observed=f"{type(e).__name__}: {e}")
+            want = aff_mul(A(rep), h)
+            b = cm.groups[g][1]
+            if not (isinstance(res, tuple) and len(res) == 3):
+                return dict(why="result shape", observed=repr(res)[:100])
+            got = A(res)
+            if not aff_eq(got, want):
+                return dict(why="clear_cofactor(p) != h_eff . p", observed=enc_pt(got), expected=enc_pt(want))
+            x, y, z = res
+            if not (z == z.__class__.zero() or y * y * z == x * x * x + b * z * z * z):
+                return dict(why="result is not a valid representative (not on the curve)", observed=enc_pt(res))
+            if aff_mul(got, R_BLS) is not None:
+                return dict(why="result not in the prime-order subgroup", observed=enc_pt(got))
+        return None
